@@ -16,7 +16,7 @@ SANITIZER_IS_VIOLATION = True
 def lifecycle(rng, fail_at=None, fail_op=None, kind=None):
     """one lifecycle script; if fail_op is given, 'failnth fail_at' is placed before that op index"""
     ssrc = rng.randrange(2, 1 << 32)
-    kind = kind if kind is not None else rng.randrange(5)
+    kind = kind if kind is not None else rng.randrange(6)
     mki = rng.random() < 0.4
     def pol(t, s, valid=True, xtn=False):
         p = default_policy(rng, s, ssrc_type=t, window=rng.choice([64, 128, 1024]))
@@ -39,6 +39,7 @@ def lifecycle(rng, fail_at=None, fail_op=None, kind=None):
     P.append(pol(SSRC_ANY_OUT, 0, valid=False).line(6))
     P.append(pol(SSRC_SPECIFIC, ssrc).line(7))
     P.append(pol(SSRC_ANY_OUT, 0).line(8))
+    P.append(pol(SSRC_SPECIFIC, 5).line(9))
     def pk(s, q): return rtp_packet(s, q, payload=b"x" * 20)
     if kind == 0:
         ops = ["create 1 1", pkt_op("protect", 1, pk(ssrc, 1), extra=40), "add 1 4", f"remove 1 {H(ssrc)}", "update 1 7", "add 1 1", "update 1 7", "update 1 5"]
@@ -50,6 +51,12 @@ def lifecycle(rng, fail_at=None, fail_op=None, kind=None):
         ops = ["create 1 1 2", "create 2 1 3", pkt_op("protect", 1, pk(77, 3), extra=40), pkt_op("unprotect", 2, "@%x" % 0, cap=200)]
     elif kind == 3:
         ops = ["create 1 1 4 2", "add 1 3", "add 1 5", "update 1 8 7", "stream_update 1 6", "stream_update 1 5", f"remove 1 {H(ssrc ^ 1)}"]
+    elif kind == 5:
+        # a stream CLONED from the wildcard template is re-keyed by an explicit policy for its SSRC: the clone shares the template's
+        # cipher / auth / limit objects, which must survive its replacement (other clones and the template go on using them)
+        ops = ["create 1 2", pkt_op("protect", 1, pk(5, 1), extra=40), pkt_op("protect", 1, pk(6, 1), extra=40),
+               "stream_update 1 9" if mki or True else "update 1 9", pkt_op("protect", 1, pk(5, 2), extra=40), pkt_op("protect", 1, pk(6, 2), extra=40),
+               pkt_op("protect", 1, pk(7, 1), extra=40), "update 1 9", "update 1 8", pkt_op("protect", 1, pk(6, 3), extra=40)]
     else:
         ops = ["create 1", "add 1 2", "add 1 1", "add 1 4"] + [pkt_op("protect", 1, pk(100 + i, 1), extra=40) for i in range(4)] + ["update 1 8"]
     L = list(P)
@@ -127,7 +134,7 @@ def families(tier, seed, ctx):
     scripts = []
     variants = [0] if tier == "quick" else [0, 1, 2]
     for v in variants:
-        for k in range(5):
+        for k in range(6):
             sd = seed * 77 + k + 1000 * v
             txt, nops = lifecycle(random.Random(sd), kind=k)
             scripts.append((f"life-{k}-v{v}", txt))
